@@ -199,6 +199,16 @@ def calcWith (repaired : Bool) (now : Int) (ref : Ref) (o : Options) : LiveTimin
 def calculateLiveParams (now : Int) (ref : Ref) (o : Options) : LiveTiming :=
   calcWith true now ref o
 
+/-- `ManifestContext.check_stream_has_started` (manifest_context.py:210-219): a live manifest is
+refused (`ManifestNotAvailable`, HTTP 404) when `timing.elapsedTime < datetime.timedelta(0)` – a comparison
+of timedeltas, i.e. of exact microseconds, no rounding to seconds -/
+def started (t : LiveTiming) : Bool := decide (0 ≤ t.elapsedTime)
+
+/-- the timing of the manifest that is served, or `none` when the request is refused because the stream
+has not started -/
+def serveLive (now : Int) (ref : Ref) (o : Options) : Option LiveTiming :=
+  if started (calculateLiveParams now ref o) then some (calculateLiveParams now ref o) else none
+
 /-- what a manifest hands on to the next request (manifest_context.py:329-331 `create_period`): the
 *resolved* availabilityStartTime and timeShiftBufferDepth are written back into the options, every
 other option – in particular `minimumUpdatePeriod`, given or not, disabled or not – is kept as it was;
